@@ -203,6 +203,7 @@ class SimEndpoint(object):
         return SimSPARQLWrapper
 
     def serve(self, q):
+        self.sim.yield_point("query")
         idx = self.attempt
         self.attempt += 1
         sim = self.sim
@@ -310,6 +311,7 @@ class SimHTTP(object):
         # concurrent downloads then complete in another order than they were submitted (no effect on the shipped code,
         # which fetches from the calling thread only)
         self.sim.fs._park_foreign_thread()
+        self.sim.yield_point("fetch")
         url = req.full_url if hasattr(req, "full_url") else req
         idx = self.fetches
         self.fetches += 1
@@ -372,6 +374,7 @@ class SimStore(rdflib.Graph):
         try:
             for t in ts:
                 n += 1
+                sim.yield_point("triple")
                 yield t
             done = True
         finally:
@@ -425,6 +428,7 @@ class _Reader(object):
                     fs.read_fault_left -= 1
                 fs.lines_read += 1
                 n += 1
+                sim.yield_point("read")
                 yield l
             done = True
         finally:
@@ -517,6 +521,7 @@ class _Writer(object):
         if fs.write_fault_left > 0:
             fs.write_fault_left -= 1
         fs.writes += 1
+        fs.sim.yield_point("write")
         return self.real.write(s)
 
     def __getattr__(self, name):
@@ -580,7 +585,8 @@ class _GzLines(object):
     def __iter__(self):
         fs = self.fs
         import threading
-        foreign = self.stall and threading.current_thread() is not threading.main_thread()
+        foreign = self.stall and threading.current_thread() is not threading.main_thread() \
+            and not (fs.sim.interleaver is not None and fs.sim.interleaver._is_task_thread())
         for n, l in enumerate(self.real):
             if foreign and n == 1:
                 import time as _time
@@ -593,6 +599,7 @@ class _GzLines(object):
                 raise OSError(getattr(errno, fs.read_errno), "simulated " + fs.read_errno)
             if fs.read_fault_left > 0:
                 fs.read_fault_left -= 1
+            fs.sim.yield_point("read")
             yield l
 
     def __getattr__(self, name):
@@ -611,6 +618,8 @@ class SimFS(object):
         import threading
         if threading.current_thread() is threading.main_thread():
             return
+        if self.sim.interleaver is not None and self.sim.interleaver._is_task_thread():
+            return      # a caller task of an overlap scenario: scheduled by the interleaver, not parked
         import time as _time
         with self._cv:
             ticket = self._arrivals
@@ -733,6 +742,106 @@ def target_kwargs(target):
 _TARGET_FILES = 0
 
 
+class Interleaver(object):
+    """Caller tasks that overlap in time.  Every task runs on a real thread, but only the holder of the baton runs; at a
+    seam event (a line read, a write, a query, a fetch, a triple delivered by the store) the holder may hand the baton to
+    another live task, as the seeded schedule says.  Which task runs is therefore never decided by the operating system:
+    one seed is one interleaving, and the list of switches is part of the event log."""
+    WAIT_S = 120.0
+
+    def __init__(self, sim, seed, switch_p=0.3, nested_at=None):
+        import threading
+        self.sim = sim
+        self.rng = random.Random("interleave|%s" % (seed,))
+        self.switch_p = switch_p
+        self.nested_at = nested_at      # event index of task 0 at which every other task runs to completion (no other switch)
+        self.cv = threading.Condition()
+        self.current = None
+        self.alive = []
+        self.idents = {}
+        self.events = Counter()         # seam events seen per task
+        self.switches = 0
+
+    def _is_task_thread(self):
+        import threading
+        return threading.get_ident() in self.idents
+
+    def _wait_for_baton(self, me):
+        import time as _time
+        end = _time.monotonic() + self.WAIT_S
+        with self.cv:
+            while self.current != me:
+                left = end - _time.monotonic()
+                if left <= 0:
+                    raise RuntimeError("interleaver: task %s never got the baton back" % me)
+                self.cv.wait(left)
+
+    def yield_point(self, kind):
+        import threading
+        me = self.idents.get(threading.get_ident())
+        if me is None or self.current != me:
+            return
+        n = self.events[me]
+        self.events[me] += 1
+        others = [t for t in self.alive if t != me]
+        if not others:
+            return
+        if self.nested_at is not None:
+            if me != 0 or n != self.nested_at:
+                return
+            nxt = others[0]
+        else:
+            if self.rng.random() >= self.switch_p:
+                return
+            nxt = self.rng.choice(others)
+        self.switches += 1
+        self.sim.log.add("switch", me, kind, n, nxt)
+        with self.cv:
+            self.current = nxt
+            self.cv.notify_all()
+        self._wait_for_baton(me)
+
+    def run(self, fns):
+        """fns: task id -> callable.  Returns task id -> value (or the BaseException a task ended with)."""
+        import threading
+        results = {}
+        order = sorted(fns)
+        self.alive = list(order)
+
+        def body(tid):
+            try:
+                self._wait_for_baton(tid)
+                try:
+                    results[tid] = fns[tid]()
+                except BaseException as e:      # StepCapExceeded included: the caller decides what it means
+                    results[tid] = e
+            finally:
+                with self.cv:
+                    if tid in self.alive:
+                        self.alive.remove(tid)
+                    if self.nested_at is not None:
+                        # the interrupted task 0 goes on only when every other task is done
+                        rest = [t for t in self.alive if t != 0] or list(self.alive)
+                        self.current = rest[0] if rest else None
+                    else:
+                        self.current = self.rng.choice(self.alive) if self.alive else None
+                    self.sim.log.add("task_end", tid, self.current)
+                    self.cv.notify_all()
+        threads = [threading.Thread(target=body, args=(tid,), daemon=True, name="caller-%s" % tid) for tid in order]
+        with self.cv:
+            for tid, th in zip(order, threads):
+                th.start()
+                self.idents[th.ident] = tid
+            self.current = 0 if (self.nested_at is not None and 0 in fns) else self.rng.choice(order)
+            self.sim.log.add("task_first", self.current)
+            self.cv.notify_all()
+        for th in threads:
+            th.join(self.WAIT_S * 2)
+            if th.is_alive():
+                raise RuntimeError("interleaver: a task did not finish")
+        return results
+
+
 class Sim(object):
     def __init__(self, scratch):
         global CURRENT_SCRATCH, _TARGET_FILES
@@ -746,7 +855,12 @@ class Sim(object):
         self.fs = SimFS(self)
         self.http = SimHTTP(self)
         self.endpoint = None
+        self.interleaver = None     # set by scenarios whose caller tasks overlap in time
         self._saved = None
+
+    def yield_point(self, kind):
+        if self.interleaver is not None:
+            self.interleaver.yield_point(kind)
 
     # ---- seams
     def __enter__(self):
